@@ -487,6 +487,13 @@ func (vc *VC) load(fr *Frame, st *State, p *Ptr, pos token.Pos) *Val {
 		}
 		return &Val{T: t, S: vc.getPath(cv.S, p.Base, p.Path)}
 	}
+	if len(p.Path) > 0 && opaqueStruct(p.Base) {
+		// a field of a struct of another package that is not modelled field by
+		// field: an arbitrary well-formed value of the field's type
+		v := vc.havocVal(t, "opq")
+		vc.assumeRefsBelow(st, v.S, t)
+		return v
+	}
 	_, h := vc.heap(st, p.Base)
 	base := "(select " + h + " " + p.Ref + ")"
 	term := vc.getPath(base, p.Base, p.Path)
